@@ -139,15 +139,18 @@ func (bs *bootstrap) Listen(url string, option ...transport.Option) Listener {
 // Shutdown the bootstrap
 func (bs *bootstrap) Shutdown() {
 	// all channels will be canceled.
+	verifYield("b.cancel", nil)
 	bs.bootstrapCancel()
 
 	// close all listener
+	verifYield("b.range", nil)
 	bs.listeners.Range(func(key, value interface{}) bool {
 		_ = value.(Listener).Close()
 		return true
 	})
 
 	// close all channels
+	verifYield("b.closeall", nil)
 	if nil != bs.holder {
 		bs.holder.CloseAll(ErrServerClosed)
 	}
@@ -187,6 +190,7 @@ func (l *listener) Acceptor() transport.Acceptor {
 
 // Close listener
 func (l *listener) Close() error {
+	verifYield("l.close", nil)
 	l.bs.removeListener(l.url)
 	// remember the close: a Sync that has not created its acceptor yet must not start accepting
 	l.mutex.Lock()
@@ -202,6 +206,7 @@ func (l *listener) Close() error {
 // Sync accept new transport from listener
 func (l *listener) Sync() error {
 
+	verifYield("l.listen", nil)
 	acceptor, err := l.listen()
 	if nil != err {
 		return err
@@ -219,6 +224,7 @@ func (l *listener) Sync() error {
 			}
 		}
 
+		verifYield("l.serve", nil)
 		l.bs.ServeChannel(l.options.Context, t, l.options.Attachment, true)
 	}
 }
